@@ -469,6 +469,17 @@ def paren_cases(names, nops, roots=None):
             out.append(("parens: " + v, {"o": orig, "v": E.program(arg(v)), "lab": lab, "w": _node_name(node),
                                          "path": list(path)}))
         out.append(("parens: " + _wrap_all(t), {"o": orig, "v": E.program(_wrap_all(t)), "lab": lab, "w": "every sub-expression", "path": []}))
+        # the parser's other resumption site: an array literal that opens an element of an enclosing array literal
+        # (`[[a][0] op b op c][0]`), where the rest of the element is parsed from an already-built left operand.  Only for
+        # trees whose left spine is made of binary operators down to an identifier (a value position, never a target).
+        n = t
+        while n[0] == "bin":
+            n = n[2]
+        if n[0] == "v" and E.level(t) >= 2 and m.startswith(n[1]) and not m[len(n[1]):len(n[1]) + 1].isalnum() \
+                and m[len(n[1]):len(n[1]) + 1] not in ("_", "$", ""):
+            v = "[[" + n[1] + "][0]" + m[len(n[1]):] + "][0]"
+            out.append(("parens: " + v, {"o": orig, "v": E.program(v), "lab": lab, "w": "array element opened by an array literal",
+                                         "path": []}))
         # two redundant pairs at once (a sub-expression and one of its ancestors, or two unrelated ones): a group that directly
         # follows another `(` is parsed by a different path than a lone one
         subs = list(E.subexprs(t))
